@@ -198,7 +198,7 @@ fn part1(args: &RunArgs, rep: &Reporter) -> J {
     let subjects = sem_json_subjects();
     let p1 = P1 { docs: AtomicU64::new(0), mutants: AtomicU64::new(0), comparisons: AtomicU64::new(0), accepted: AtomicU64::new(0), rejected: AtomicU64::new(0), kind_sets_differ: AtomicU64::new(0) };
     let distinct = DistinctSet::new();
-    let (dev, mut_dev, budget) = if args.quick() { (3, 1, 25) } else { (4, 2, 900) };
+    let (dev, mut_dev, budget) = if args.quick() { (3, 2, 25) } else { (4, 3, 900) };
     let stats = explore(&ExploreCfg { max_dev: dev, threads: args.threads, budget: Duration::from_secs(budget) }, |c: &mut Chooser| {
         let doc = gen_doc(c, &sch, 2, true);
         let text = exec_text(&doc);
